@@ -22,7 +22,20 @@ class SymSeq:
 
     def _getitem(self, idx):
         if isinstance(idx, slice):
-            raise Unsupported('slice of symbolic sequence')
+            if idx.step not in (None, 1) or idx.stop is not None or not isinstance(idx.start, int) or idx.start < 0:
+                raise Unsupported('slice of a symbolic sequence other than seq[a:] with a constant a >= 0')
+            a = idx.start
+            n = self.length
+            c = core.ctx()
+            if isinstance(n, int):
+                m = max(n - a, 0)
+            elif c.branch(zint(n) >= a):
+                m = mk_int(zint(n) - a)
+            else:
+                m = 0
+            out = SymSeq(m, lambda k: self.at(mk_int(zint(k) + a)) if is_sym(k) else self.at(k + a), self.kind)
+            out.slice_of = (self, a)
+            return out
         n = self.length
         c = core.ctx()
         if c.branch(z3.Or(zint(idx) >= zint(n), zint(idx) < -zint(n))):
